@@ -71,6 +71,10 @@ def gen_case(rng, tier):
     if two:
         g1 = sorted(distinct(rng.randint(2, 3)))
         g2 = sorted(distinct(rng.randint(2, 3)))
+        if rng.random() < 0.3:
+            # a fine scan: the first parameter moves by a few parts per million only (it is still a swept parameter)
+            v = 1.0 + rng.randint(0, 64) / 64.0
+            g1 = [v, v + 5e-6, v + 10e-6][:len(g1)]
         pts = [[a, b] for a in g1 for b in g2]
     else:
         g = distinct(rng.randint(2, 5))
